@@ -129,10 +129,22 @@ const (
 func loadCrdIntoConfig(
 	theConfig *builtinconfig.TransformerConfig, theGvk resid.Gvk, theMap nameToApiMap,
 	typeName string, path []string) (err error) {
+	return loadCrdTypeIntoConfig(theConfig, theGvk, theMap, typeName, path, map[string]bool{})
+}
+
+// loadCrdTypeIntoConfig does the work of loadCrdIntoConfig. onPath holds the
+// types being expanded on the way from the root type to this one: a type that
+// refers to itself, directly or through other types, is not expanded again
+// (the field paths below it would never end).
+func loadCrdTypeIntoConfig(
+	theConfig *builtinconfig.TransformerConfig, theGvk resid.Gvk, theMap nameToApiMap,
+	typeName string, path []string, onPath map[string]bool) (err error) {
 	api, ok := theMap[typeName]
-	if !ok {
+	if !ok || onPath[typeName] {
 		return nil
 	}
+	onPath[typeName] = true
+	defer delete(onPath, typeName)
 	for propName, property := range api.Schema.SchemaProps.Properties {
 		_, annotate := property.Extensions.GetString(xAnnotation)
 		if annotate {
@@ -178,9 +190,9 @@ func loadCrdIntoConfig(
 			}
 		}
 		if property.Ref.GetURL() != nil {
-			err = loadCrdIntoConfig(
+			err = loadCrdTypeIntoConfig(
 				theConfig, theGvk, theMap,
-				property.Ref.String(), append(path, propName))
+				property.Ref.String(), append(path, propName), onPath)
 			if err != nil {
 				return
 			}
